@@ -43,6 +43,7 @@ class Sched:
         self.by_ident = {}
         # preemptive mode (DESIGN.md 2.2): scheduled threads are traced; the n-th line executed
         # inside the library since arm() was called is a switching point if n is in `points`
+        self.jitter = 0.0         # every timed wait expires this much late
         self.trace_on = False
         self.trace_match = '/engineio/'
         self.points = []
@@ -204,7 +205,7 @@ class Sched:
         if timeout is not None and timeout <= 0:
             return False
         t.pred = pred
-        t.deadline = None if timeout is None else self.clock.now + timeout
+        t.deadline = None if timeout is None else self.clock.now + timeout + self.jitter
         t.what = what
         t.state = 'blocked'
         self._switch_out(t)
